@@ -334,7 +334,7 @@ namespace detail {
                     }
                     return context.null_value();
                 }
-                if (identifier_ == context.length_label() && current.size() > 0)
+                if (identifier_ == context.length_label() && current.size() >= 0)
                 {
                     pointer ptr = context.create_json(current.size(), semantic_tag::none, context.get_allocator());
                     return this->evaluate_tail(context, root, 
@@ -1149,12 +1149,17 @@ namespace detail {
                     {
                         end = current.size();
                     }
-                    for (int64_t i = start; i < end; i += step)
+                    for (int64_t i = start; i < end; )
                     {
                         auto j = static_cast<std::size_t>(i);
                         this->tail_select(context, root, 
                                             path_generator_type::generate(context, last, j, options), 
                                             current[j], receiver, options);
+                        if (step >= end - i) // next index is past the end (also avoids signed overflow of i + step)
+                        {
+                            break;
+                        }
+                        i += step;
                     }
                 }
                 else if (step < 0)
